@@ -12,7 +12,7 @@ RULE = ('every history over the five writer calls {new_change, new_file, '
         'write_preamble, write_meta, write_diff} up to length L (counter '
         'history_max_len) is executed on a real DiffXWriter over an '
         'instrumented stream; before each step one must-raise '
-        'invalid-argument variant (rotating through a 25-entry catalogue) is '
+        'invalid-argument variant (rotating through a 30-entry catalogue) is '
         'fired on the same writer, and hostile option values (unknown / '
         'non-ASCII / malformed codec names, odd indents) are fired on a '
         'forked writer under the weaker oracle "raises => atomic, accepted '
@@ -57,6 +57,13 @@ MUST_RAISE = [
     ('write_preamble', ('x\n',), {'mimetype': 'text/html'}),
     ('write_preamble', ('é\n',), {'encoding': 'ascii'}),
     ('write_preamble', ('\ud800\n',), {'encoding': 'utf-8'}),
+    # lone surrogates of every range (os.fsdecode() produces U+DC80..DCFF)
+    # are not encodable in any codec
+    ('write_preamble', ('caf\udce9\n',), {}),
+    ('write_preamble', ('caf\udce9\n',), {'encoding': 'ascii'}),
+    ('write_preamble', ('\udc80\n',), {'encoding': 'latin-1'}),
+    ('write_preamble', ('x\udcff\n',), {'encoding': 'utf-16'}),
+    ('write_preamble', ('\udfff',), {'encoding': 'utf-8', 'indent': 2}),
     ('write_meta', ('str',), {}),
     ('write_meta', (None,), {}),
     ('write_meta', ([],), {}),
